@@ -104,6 +104,7 @@ def main():
     ap.add_argument('--seeded', action='store_true', help='also run seeded/<id>/patch.diff changes')
     ap.add_argument('--seed', type=int, default=0)
     ap.add_argument('-j', type=int, default=4)
+    ap.add_argument('--merge', action='store_true', help='with --only/--prop: replace the re-run entries in evidence/selftest.json and recompute its summary')
     a = ap.parse_args()
     sys.path.insert(0, HERE)
     from mutants import specs
@@ -131,7 +132,20 @@ def main():
             print(f"{'CAUGHT' if r['caught'] else 'MISSED'}  {r['name']:<48} {r['property']}  "
                   f"tests={'pass' if tp else ('FAIL' if tp is False else '-')}  {r.get('error', '')} "
                   f"{'; '.join(c['what'] for c in r.get('checks', {}).values())[:160]}", flush=True)
-    scope = {m['name']: m.get('out_of_scope') for m in muts if isinstance(m, dict)}
+    all_muts = muts
+    if a.merge and (a.only or a.prop):
+        with open(os.path.join(HERE, 'evidence', 'selftest.json')) as f:
+            old = json.load(f)['results']
+        fresh = {r['name']: r for r in results}
+        results = [fresh.pop(r['name'], r) for r in old] + list(fresh.values())
+        all_muts = list(specs.MUTANTS)
+        sd = os.path.join(HERE, 'seeded')
+        for d in sorted(os.listdir(sd)):
+            mp = os.path.join(sd, d, 'meta.json')
+            if os.path.exists(mp):
+                with open(mp) as f:
+                    all_muts.append({'name': 'seeded/' + d, 'out_of_scope': json.load(f).get('out_of_scope')})
+    scope = {m['name']: m.get('out_of_scope') for m in all_muts if isinstance(m, dict)}
     surviving = [r for r in results if r.get('tests_pass') is not False]
     summary = {'mutants': len(results), 'test_surviving': len(surviving),
                'caught': sum(1 for r in surviving if r['caught']),
@@ -139,7 +153,7 @@ def main():
                # changes a sub-agent offered that do not break the property as stated (reason in seeded/<id>/meta.json): not claimed
                'not_caught_judged_out_of_scope': {r['name']: scope[r['name']] for r in surviving if not r['caught'] and scope.get(r['name'])},
                'killed_by_tests_only_reported': [r['name'] for r in results if r.get('tests_pass') is False]}
-    if not a.only and not a.prop:
+    if (not a.only and not a.prop) or a.merge:
         with open(os.path.join(HERE, 'evidence', 'selftest.json'), 'w') as f:
             json.dump({'summary': summary, 'tier': a.tier, 'results': results}, f, indent=1)
     print(json.dumps(summary, indent=1))
